@@ -137,6 +137,7 @@ def check_invs(fv, spec, st, phase, node):
     for name, e in spec.invariants:
         g = fv.truthy(fv.ev(e, st, True))
         fv.oblige(st, 'loop[%s]/inv[%s]/%s' % (spec.key, name, phase), g, node)
+        fv.add_fact(st, g)      # assert-then-assume: later invariants may rely on earlier ones
 
 
 def assume_invs(fv, spec, st):
